@@ -463,6 +463,8 @@ def eval_case(ctx: Ctx, c: dict):
             kw["keyring"] = dns.tsig.Key("key.example.", b"secret-secret-secret", "hmac-sha256")
         elif kr == "callable":
             kw["keyring"] = lambda message, name: None
+        elif kr == "false":
+            kw["keyring"] = False  # documented: accept the TSIG without validating it
         cls, m, e = guarded(lambda: dns.message.from_wire(wire, **kw))
         if report(ctx, "message.from_wire", cls, rep, f"from_wire({wire.hex()}, {opts}) raised {e!r}"):
             return
@@ -476,7 +478,14 @@ def eval_case(ctx: Ctx, c: dict):
                         ctx.fail(f"C04/message.from_wire/continue-recorded-{ec}", f"continue_on_error recorded a foreign exception {err.exception!r} for {wire.hex()}", rep)
                     if not (0 <= err.offset <= len(wire)):
                         ctx.fail("C04/message.from_wire/continue-offset", f"recorded offset {err.offset} outside the message", rep)
-            render_back(ctx, "message", m, rep, f"message parsed from {wire.hex()}")
+            render_back(ctx, "message", m, rep, f"message parsed from {wire.hex()[:400]}")
+            # "rendered to wire again" under the rendering options too: every size limit and truncation preference
+            # ends in a message or in the library's own TooBig, whatever reserves (OPT, TSIG) the message carries
+            limits = c.get("limits") or [[512, 0], [len(wire), 1]] if ctx.evaluations % 2 == 0 else [[0, 1], [max(12, len(wire) - 1), 0]]
+            for ms, pt in limits:
+                cr, _, er = guarded(lambda: m.to_wire(max_size=ms, prefer_truncation=bool(pt)))
+                if report(ctx, "message.to_wire.limited", cr, rep, f"to_wire(max_size={ms}, prefer_truncation={bool(pt)}) of the message parsed from {wire.hex()[:400]} raised {er!r}"):
+                    break
     elif k == "read":
         # model correspondence of the reader skeleton
         wire = bytes.fromhex(c["wire"])
@@ -767,9 +776,29 @@ def generate(ctx: Ctx, scale: int, rng):
         if rng.chance(1, 4):
             opts["origin"] = True
         if rng.chance(1, 2):
-            opts["keyring"] = rng.choice(["bytes", "bytes", "key", "callable"])
+            opts["keyring"] = rng.choice(["bytes", "bytes", "key", "callable", "false", "false"])
         c = {"kind": "msg", "wire": w.hex(), "opts": opts}
         ctx.case(("msg", w, str(sorted(opts))), sample=c if len(w) < 80 else None)
+        eval_case(ctx, c)
+    # messages whose OPT and TSIG records are large (each reserve fits a limit alone, not together; or neither fits):
+    # accepted with keyring=False, then rendered again under several limits
+    import struct as _st
+    SIZES = [0, 16, 100, 400, 500, 20000, 33000, 40000, 60000]
+    for _ in range(n(40)):
+        s1, s2, s3 = rng.choice(SIZES), rng.choice(SIZES), rng.choice([0, 0, 6, 300])
+        if rng.chance(1, 2):
+            s1, s2 = rng.choice([100, 400, 500]), rng.choice([16, 100, 400])
+        q = b"\x07example\x00" + _st.pack("!HH", 1, 1)
+        opt = b"\x00" + _st.pack("!HHIH", 41, rng.choice([512, 1232, 4096]), 0, 4 + s1) + _st.pack("!HH", 65001, s1) + rng.bytes(8).ljust(s1, b"o")[:s1]
+        alg = b"\x0bhmac-sha256\x00"
+        trd = alg + b"\x00\x00" + _st.pack("!IHH", 1700000000, 300, s2) + rng.bytes(8).ljust(s2, b"m")[:s2] + _st.pack("!HHH", 0x1234, rng.choice([0, 0, 18]), s3) + b"t" * s3
+        if len(trd) > 65535 or 4 + s1 > 65535:
+            continue
+        ts = b"\x03key\x07example\x00" + _st.pack("!HHIH", 250, 255, 0, len(trd)) + trd
+        w = _st.pack("!HHHHHH", 0x1234, rng.choice([0, 0x8000]), 1, 0, 0, 2) + q + opt + ts
+        c = {"kind": "msg", "wire": w.hex(), "opts": {"keyring": "false"},
+             "limits": [[0, 0], [512, 0], [512, 1], [rng.choice([1232, 4096, 65535, 40000]), rng.below(2)]]}
+        ctx.case(("msgbig", s1, s2, s3, w[:40]))
         eval_case(ctx, c)
     for _ in range(n(400)):
         w = rng.bytes(rng.choice([0, 5, 11, 12, 13, 20, 40]))
